@@ -63,6 +63,7 @@ def run_selftest(prop, seed=0):
         out["benign_total" if benign else "mutants_total"] += 1
         if status == "stale":
             out["stale"] += 1
+            out.setdefault("stale_ids", []).append(m["id"])
             continue
         new = sorted(set(keys) - clean)
         if benign:
